@@ -134,6 +134,43 @@ def run(ctx):
                           {"programs": job[0], "generator": job[1], "scaled": job[2], "table_full": job[3],
                            "schedule": pr["schedule"], "what": pr["what"], "granularity": "line"})
     ctx.extra["line_granularity_single_preemption_executions"] = nsweep
+    # keys: operations that touch several shared objects (the key's reference to its point, that point, the point
+    # swapped in by precompute(), the curve's generator): every schedule of the real code for each pair, results compared
+    # with sequential results, every read monitored, and the recorded access logs validated against KeyThreads.tla
+    kops = ptdrv.KEY_OPS[:6]
+    kpairs = [((a,), (b,)) for a, b in itertools.combinations_with_replacement(kops, 2)]
+    kpairs += [(("precompute_lazy", "verify"), ("verify",)), (("precompute", "to_string"), ("verify2", "verify")),
+               (("verify",), ("precompute_lazy",), ("to_string",))]
+    kjobs = []
+    for progs in kpairs:
+        for q_scaled, g_empty in ((False, True), (True, False)) if quick else ((False, True), (True, False), (False, False), (True, True)):
+            kjobs.append((progs, q_scaled, g_empty, 500 if quick else 30000))
+    klogs = []
+    kgroups = [[] for _ in range(8)]
+    khit = 0
+    for job, (execs, steps, nstates, problems, complete, logs) in zip(kjobs, pool.map(ptdrv.explore_keys, kjobs, chunksize=2)):
+        ctx.traces += execs
+        ctx.evaluations += steps
+        khit += 0 if complete else 1
+        for li, lg in enumerate(logs[:12 if quick else 40]):
+            kgroups[(len(klogs) + li) % 8].extend(lg)      # whole logs only: each starts with a reset event
+        klogs.append(1)
+        for pr in problems:
+            ctx.violation("%s [shared VerifyingKey, point initially %s, generator table %s; programs %s; schedule %s]"
+                          % (pr["what"], "scaled" if job[1] else "unscaled", "empty" if job[2] else "full", job[0], pr["schedule"]),
+                          {"programs": job[0], "point_scaled": job[1], "generator_table_empty": job[2], "schedule": pr["schedule"],
+                           "what": pr["what"]})
+    ctx.extra["key_operation_combinations"] = {"combinations": len(kjobs), "hit_cap": khit}
+    def vgroup(gi):
+        return core.validate_traces(ctx.workdir, "KeyThreads", "INIT Init\nNEXT Next\nCHECK_DEADLOCK FALSE\nPROPERTY Monotone\n",
+                                    kgroups[gi], shards=1, tag="keythreads%d" % gi)
+    core.prepare_specdir(ctx.workdir)
+    with cf.ThreadPoolExecutor(max_workers=8) as tex:
+        for gi, (bad, st) in enumerate(tex.map(vgroup, [g for g in range(8) if kgroups[g]])):
+            ctx.add_stats(st)
+            for ix, clause in bad:
+                ctx.violation("a recorded access of a key operation is not a legal atomic-register step (%s): event %d %s"
+                              % (clause, ix, kgroups[gi][ix]), {"event": kgroups[gi][ix], "index": ix})
     pool.shutdown()
     ctx.extra["real_schedule_explorations"] = {"combinations": len(explore_jobs), "hit_cap": incomplete}
     ctx.rule = ("S->C: TLC's state graph of PointThreads.tla for every unordered pair of {x, y, scale, to_affine, ==, +, double, "
